@@ -9,6 +9,11 @@
    asynq.debug.str/repr on the object and str/repr/dump on the scheduler.  The prescribed result of every step
    is <<"ok">> (the diagnostics returned); anything raised is a violation.
 
+   Value kinds: the kinds that HOLD a user value (a future's / item's / task's value, a scoped value's default,
+   set and override value, the override contexts' value, generator.Value) are enumerated with every kind of value:
+   None, int, str, empty tuple, 1-tuple, 2-tuple, list, dict, a string full of '%' characters - all "ordinary":
+   the diagnostics must not raise - and an object whose own __repr__ raises ("badrepr": nothing prescribed, "any").
+
    format_error is an enumerated product (kind "format_error"): exception kind x explicit tb argument x
    filter_traceback on/off x syntax highlighting on/off; prescribed: <<"none">> for error None, else <<"str">>. *)
 EXTENDS Integers, Sequences, FiniteSets, TLC, Json, IOUtils
@@ -97,29 +102,33 @@ ExcKinds == {"task_raised",        \* raised inside an asynq task and caught by 
 Cells == [exc : ExcKinds, tb : {"no", "yes"}, filter : {"on", "off"}, highlight : {"on", "off"}]
 NoCell == [exc |-> "-", tb |-> "-", filter |-> "-", highlight |-> "-"]
 
-VARIABLES kind, st, cell, hist
-vars == <<kind, st, cell, hist>>
+Holders == {"future", "const", "task", "item", "ditem", "scoped", "override", "propoverride", "agvalue"}
+Ordinary == {"none", "int", "str", "tuple0", "tuple1", "tuple2", "list", "dict", "percent"}
+ValueKinds == Ordinary \cup {"badrepr"}
 
-Init == /\ \/ kind \in Kinds /\ cell = NoCell
-           \/ kind = "format_error" /\ cell \in Cells
+VARIABLES kind, val, st, cell, hist
+vars == <<kind, val, st, cell, hist>>
+
+Init == /\ \/ kind \in Kinds /\ cell = NoCell /\ val \in (IF kind \in Holders THEN ValueKinds ELSE {"-"})
+           \/ kind = "format_error" /\ cell \in Cells /\ val = "-"
         /\ st = "none" /\ hist = <<>>
 
 Step == /\ kind # "format_error" /\ Len(hist) < Depth
         /\ \E x \in T : /\ x[1] = kind /\ x[2] = st
                         /\ st' = x[4]
-                        /\ hist' = Append(hist, [op |-> x[3], st |-> x[4], res |-> <<"ok">>])
-        /\ UNCHANGED <<kind, cell>>
+                        /\ hist' = Append(hist, [op |-> x[3], st |-> x[4], res |-> IF val = "badrepr" THEN <<"any">> ELSE <<"ok">>])
+        /\ UNCHANGED <<kind, val, cell>>
 
 FormatError == /\ kind = "format_error" /\ hist = <<>>
                /\ st' = "done"
                /\ hist' = <<[op |-> "format_error", st |-> "done", res |-> IF cell.exc = "none" THEN <<"none">> ELSE <<"str">>]>>
-               /\ UNCHANGED <<kind, cell>>
+               /\ UNCHANGED <<kind, val, cell>>
 
 Next == Step \/ FormatError
 Spec == Init /\ [][Next]_vars
 
 (* ---- on the model ---- *)
-DiagnosticsTotal == \A n \in 1..Len(hist) : kind # "format_error" => hist[n].res = <<"ok">>
+DiagnosticsTotal == \A n \in 1..Len(hist) : (kind # "format_error" /\ val \in Ordinary \cup {"-"}) => hist[n].res = <<"ok">>
 FormatErrorTotal == (kind = "format_error" /\ hist # <<>>) => hist[1].res \in {<<"str">>, <<"none">>} /\ (hist[1].res = <<"none">> <=> cell.exc = "none")
 StateDeclared == kind # "format_error" => st \in StatesOf(kind) \cup {"none"}
 (* every declared state is reachable from "none" (so every (kind, state) pair is visited when Depth is large enough) *)
@@ -128,5 +137,5 @@ Reach(k, S) == LET N == S \cup {x[4] : x \in {y \in T : y[1] = k /\ y[2] \in S}}
 ASSUME \A k \in Kinds : Reach(k, {"none"}) = StatesOf(k) \cup {"none"}
 
 ASSUME PrintT(ToJson([pairs |-> {<<x[1], x[4]>> : x \in T}]))
-Export == hist # <<>> => PrintT(ToJson([kind |-> kind, st |-> st, h |-> hist, cell |-> cell]))
+Export == hist # <<>> => PrintT(ToJson([kind |-> kind, val |-> val, st |-> st, h |-> hist, cell |-> cell]))
 =============================================================================
